@@ -134,6 +134,20 @@ func (ft *FT) binop(op token.Token, x, y Term, xt, yt, rt types.Type, pos token.
 				ft.safety("ifacecmp", pos, guard, or(not(eq(app("dyn", x), app("dyn", y))), ft.comparableDyn(x)))
 			}
 		}
+		if isIface(xt) && isIface(yt) {
+			// interface equality: same dynamic type and equal payload; float64 payloads compare with float ==
+			_, ubx, fid := ft.d.box(types.Typ[types.Float64])
+			ft.declComparable(types.Typ[types.Float64])
+			feq := ft.ufun("feq", []Sort{"F64", "F64"}, "Bool")
+			bothF := and(eq(app("dyn", x), num(int64(fid))), eq(app("dyn", y), num(int64(fid))))
+			e := ite(bothF, app(feq, app(ubx, x), app(ubx, y)), eq(x, y))
+			if op == token.EQL {
+				return e
+			}
+			if op == token.NEQ {
+				return not(e)
+			}
+		}
 		switch op {
 		case token.EQL:
 			return eq(x, y)
